@@ -12,6 +12,7 @@ HERE = os.path.dirname(os.path.dirname(os.path.abspath(__file__)))
 root = sys.argv[1] if len(sys.argv) > 1 else "/repo"
 out = []
 consts = []
+sigs = {}
 for dp, dn, fns in os.walk(os.path.join(root, "opendsm")):
     dn[:] = sorted(d for d in dn if d != "__pycache__")
     for fn in sorted(fns):
@@ -23,6 +24,11 @@ for dp, dn, fns in os.walk(os.path.join(root, "opendsm")):
             parts = parts[:-1]
         mod = ".".join(parts)
         tree = ast.parse(open(os.path.join(dp, fn), encoding="utf-8").read())
+        def sig(fn):
+            a = fn.args
+            called = sorted({(n.func.attr if isinstance(n.func, ast.Attribute) else getattr(n.func, "id", "?")) for n in ast.walk(fn) if isinstance(n, ast.Call)})
+            return {"params": [x.arg for x in a.posonlyargs + a.args + a.kwonlyargs], "calls": called[:40]}
+
         def nested(fn, qual):
             for sub in ast.walk(fn):
                 if sub is not fn and isinstance(sub, (ast.FunctionDef, ast.AsyncFunctionDef)):
@@ -32,10 +38,12 @@ for dp, dn, fns in os.walk(os.path.join(root, "opendsm")):
                 for m in st.body:
                     if isinstance(m, (ast.FunctionDef, ast.AsyncFunctionDef)):
                         out.append(f"{mod}:{st.name}.{m.name}")
+                        sigs[f"{mod}:{st.name}.{m.name}"] = sig(m)
                         nested(m, f"{st.name}.{m.name}")
         for st in tree.body:
             if isinstance(st, (ast.FunctionDef, ast.AsyncFunctionDef)):
                 nested(st, st.name)
+                sigs[f"{mod}:{st.name}"] = sig(st)
         for st in ast.walk(tree):
             if isinstance(st, ast.Name) and isinstance(st.ctx, ast.Store):
                 pass
@@ -55,5 +63,5 @@ for dp, dn, fns in os.walk(os.path.join(root, "opendsm")):
                         out.append(f"{mod}:{sub.name}")
 out = sorted(set(out))
 consts = sorted(set(consts))
-json.dump({"generated_by": "tools/gen_known_functions.py", "functions": out, "constants": consts}, open(os.path.join(HERE, "spec", "known_functions.json"), "w"), indent=0)
+json.dump({"generated_by": "tools/gen_known_functions.py", "functions": out, "constants": consts, "signatures": sigs}, open(os.path.join(HERE, "spec", "known_functions.json"), "w"), indent=0)
 print(len(out), "functions", len(consts), "module constants")
